@@ -216,6 +216,7 @@ type gen struct {
 	budget  int // remaining statement budget
 	opt     Options
 	nmark   int
+	pure    bool // no traced evaluations (package-level initialisers)
 }
 
 // Options of the generator.
@@ -541,6 +542,14 @@ func (g *gen) structLit(sc *scope, s *structDef, d int) string {
 				parts = append(parts, f.name+": "+g.expr(sc, f.t, d-1))
 			}
 		}
+		// keys may be written in any order; values are evaluated in the order written
+		if len(parts) > 1 && g.chance(50, "keyorder") {
+			for i := len(parts) - 1; i > 0; i-- {
+				j := g.intn(i+1, "perm")
+				parts[i], parts[j] = parts[j], parts[i]
+			}
+			g.f("keyed-literal-out-of-order")
+		}
 	} else {
 		for _, f := range s.fields {
 			parts = append(parts, g.expr(sc, f.t, d-1))
@@ -551,6 +560,11 @@ func (g *gen) structLit(sc *scope, s *structDef, d int) string {
 
 func (g *gen) intExpr(sc *scope, d int) string {
 	a := func() string { return g.expr(sc, tInt, d-1) }
+	if !g.pure && g.chance(12, "traced") { // an observable evaluation: makes order and multiplicity visible
+		g.nlabel++
+		g.f("traced-eval")
+		return fmt.Sprintf("tr(\"e%d\", %s)", g.nlabel, a())
+	}
 	switch g.intn(22, "int") {
 	case 0, 1:
 		return "(" + a() + " + " + a() + ")"
@@ -881,7 +895,12 @@ func (g *gen) stmt(sc *scope, d int) string {
 		return g.printStmt(sc, g.tag())
 	case 11: // comma-ok forms
 		name, ok := g.fresh("v"), g.fresh("ok")
-		switch g.intn(3, "commaok") {
+		switch g.intn(4, "commaok") {
+		case 3:
+			txt := fmt.Sprintf("%s, %s := map[string]map[string]int{\"a\": {\"b\": %s}, \"c\": nil}[%s][\"b\"]\n_, _ = %s, %s", name, ok, g.expr(sc, tInt, 1), g.expr(sc, tString, 1), name, ok)
+			sc.vars = append(sc.vars, variable{name: name, t: tInt}, variable{name: ok, t: tBool})
+			g.f("commaok-nested-map")
+			return txt
 		case 0:
 			txt := fmt.Sprintf("%s, %s := %s[%s]\n_, _ = %s, %s", name, ok, g.expr(sc, tMapSI, 1), g.expr(sc, tString, 1), name, ok)
 			sc.vars = append(sc.vars, variable{name: name, t: tInt}, variable{name: ok, t: tBool})
@@ -1297,6 +1316,11 @@ func (g *gen) switchStmt(sc *scope, d int) string {
 
 const helpers = `var k0 = 0 // makes an expression non-constant without changing its value
 
+func tr(tag string, v int) int {
+	fmt.Println("tr", tag, v)
+	return v
+}
+
 func at(s []int, i int) int {
 	if len(s) == 0 {
 		return 0
@@ -1621,7 +1645,8 @@ func (g *gen) genGlobals() []string {
 	// package-level initialisers are not statements: no marks there (C09 is about statements)
 	marks := g.opt.Marks
 	g.opt.Marks = false
-	defer func() { g.opt.Marks = marks }()
+	g.pure = true
+	defer func() { g.opt.Marks = marks; g.pure = false }()
 	var decls []string
 	n := 1 + g.intn(4, "nglobal")
 	sc := &scope{}
